@@ -179,7 +179,7 @@ func c48PropCreateParse(rt *rapid.T, c *ev.Collector, pool *ref.OCSPPool) {
 		algCls = "sigalg=unusable"
 		wantCreateErr = true
 	case 9:
-		seed := sha256Of("c48 ed25519")
+		seed := c48Sha256("c48 ed25519")
 		priv = ed25519.NewKeyFromSeed(seed)
 		algCls = "signer=ed25519(unsupported)"
 		wantCreateErr = true
@@ -318,7 +318,7 @@ func c48PropCreateParse(rt *rapid.T, c *ev.Collector, pool *ref.OCSPPool) {
 	}
 }
 
-func sha256Of(s string) []byte { return ref.OCSPHash(crypto.SHA256, []byte(s)) }
+func c48Sha256(s string) []byte { return ref.OCSPHash(crypto.SHA256, []byte(s)) }
 
 // c48CheckEncoding compares the independently decoded CreateResponse output
 // with what the documentation of CreateResponse promises.
